@@ -19,6 +19,8 @@ package authenticode
 import (
 	"context"
 	"crypto"
+	"fmt"
+	"strings"
 
 	"github.com/sassoftware/relic/v8/lib/certloader"
 	"github.com/sassoftware/relic/v8/lib/comdoc"
@@ -30,9 +32,33 @@ func SignMSIImprint(ctx context.Context, digest []byte, hash crypto.Hash, cert *
 	return SignSip(ctx, digest, hash, msiSipInfo, cert, params)
 }
 
+// CheckMSISignatureNames refuses a document whose root storage holds an entry
+// that is one of the signature streams for the container layer but not for the
+// digest: compound file names compare case-insensitively, so adding or
+// deleting a signature stream replaces such an entry, while the digest skips
+// the signature streams by their exact names and hashes it as content.
+func CheckMSISignatureNames(cdf *comdoc.ComDoc) error {
+	files, err := cdf.ListDir(nil)
+	if err != nil {
+		return err
+	}
+	for _, item := range files {
+		name := item.Name()
+		for _, sigName := range []string{msiDigitalSignature, msiDigitalSignatureEx} {
+			if name != sigName && strings.EqualFold(name, sigName) {
+				return fmt.Errorf("MSI entry %q differs from the signature stream name %q only by case", name, sigName)
+			}
+		}
+	}
+	return nil
+}
+
 // Add a signature blob to an open MSI file. The extended signature blob is
 // added or updated if provided, or deleted if nil.
 func InsertMSISignature(cdf *comdoc.ComDoc, pkcs, exsig []byte) error {
+	if err := CheckMSISignatureNames(cdf); err != nil {
+		return err
+	}
 	if len(exsig) > 0 {
 		if err := cdf.AddFile(msiDigitalSignatureEx, exsig); err != nil {
 			return err
